@@ -85,7 +85,7 @@ Definition xdom (b : bbox) : bty :=
   | XFC l r | XBC l r | XFX l r | XBX l r => l ++ r
   | XCurry d _ _ _ n lf =>
       if lf then py_slice d (Some n) None     (* diagram.dom[n_wires:] *)
-      else py_slice d None (Some (len d - n))   (* diagram.dom[:len(diagram.dom) - n_wires] *)
+      else py_slice d None (Some (py_or (- n) (len d)))   (* diagram.dom[:-n_wires or len(diagram.dom)] *)
   end.
 Definition xcod (b : bbox) : bty :=
   match b with
@@ -190,7 +190,7 @@ Definition rcurry (d : diagram) (n : Z) (left : bool) : res diagram :=
   else
     let wires := py_slice (ddom d) (Some (py_or (- n) (len (ddom d)))) None in
     do caps <- dcaps wires (ty_l wires);
-    do a <- dtensor (did (py_slice (ddom d) None (Some (len (ddom d) - n)))) caps;
+    do a <- dtensor (did (py_slice (ddom d) None (Some (py_or (- n) (len (ddom d)))))) caps;
     do b <- dtensor d (did (ty_l wires));
     dthen a b.
 
@@ -280,36 +280,18 @@ Definition build_b2r (dom cod : bty) (bs : list bbox) (offs : list Z) : res diag
 
 (* ------------------------------------------------------------------ decidable side conditions *)
 (* a box built by the public constructors without error, all the way down
-   through curried diagrams, which must themselves be well-typed; right currying
-   within its documented range 0 <= n_wires <= len(diagram.dom) (outside of it
-   dom[:len(dom) - n_wires] and dom[-n_wires or len(dom):] overlap or leave a gap) *)
+   through curried diagrams, which must themselves be well-typed *)
 Fixpoint box_good (b : bbox) : bool :=
   match b with
   | XCurry dom cod boxes offs n lf =>
       forallb box_good boxes &&
-      match bscan dom boxes offs with Ok t => bty_eqb t cod | Err _ => false end &&
-      (lf || ((0 <=? n) && (n <=? len dom)))
+      match bscan dom boxes offs with Ok t => bty_eqb t cod | Err _ => false end
   | _ => match bbox_check b with Ok _ => true | Err _ => false end
   end.
 
 (* a well-typed biclosed diagram of such boxes *)
 Definition diagram_good (D : bdiagram) : bool :=
   forallb box_good (xd_boxes D) &&
-  match bscan (xd_dom D) (xd_boxes D) (xd_offs D) with
-  | Ok t => bty_eqb t (xd_cod D)
-  | Err _ => false
-  end.
-
-(* the same without the range restriction on right currying *)
-Fixpoint box_built (b : bbox) : bool :=
-  match b with
-  | XCurry dom cod boxes offs _ _ =>
-      forallb box_built boxes &&
-      match bscan dom boxes offs with Ok t => bty_eqb t cod | Err _ => false end
-  | _ => match bbox_check b with Ok _ => true | Err _ => false end
-  end.
-Definition diagram_built (D : bdiagram) : bool :=
-  forallb box_built (xd_boxes D) &&
   match bscan (xd_dom D) (xd_boxes D) (xd_offs D) with
   | Ok t => bty_eqb t (xd_cod D)
   | Err _ => false
